@@ -209,10 +209,12 @@ orc_program_free (OrcProgram *program)
 void
 orc_program_set_name (OrcProgram *program, const char *name)
 {
+  char *new_name = strdup (name);
+
   if (program->name) {
     free (program->name);
   }
-  program->name = strdup (name);
+  program->name = new_name;
 }
 
 /**
@@ -294,9 +296,11 @@ orc_program_set_backup_function (OrcProgram *program, OrcExecutorFunc func)
 void
 orc_program_set_backup_name (OrcProgram *program, const char *name)
 {
+  char *new_name = strdup (name);
+
   if (program->backup_name)
     free (program->backup_name);
-  program->backup_name = strdup (name);
+  program->backup_name = new_name;
 }
 
 /**
@@ -749,10 +753,12 @@ orc_program_add_accumulator (OrcProgram *program, int size, const char *name)
 void
 orc_program_set_type_name (OrcProgram *program, int var, const char *type_name)
 {
+  char *new_type_name = strdup (type_name);
+
   if (program->vars[var].type_name) {
     free (program->vars[var].type_name);
   }
-  program->vars[var].type_name = strdup(type_name);
+  program->vars[var].type_name = new_type_name;
 }
 
 void
